@@ -31,7 +31,7 @@ static uint64_t serial = 0;
 struct ActT { char kind; uint64_t arg; };            // 'L' sid | 'C' id | 'S'
 static std::vector<std::vector<ActT>> scripts;
 static std::vector<unsigned> ids;                    // serial -> id returned by request()
-static bool touch_captures = false;                  // `touch on`: the callback uses its captures after its API calls
+static bool touch_captures = true;                   // the callback uses its captures after its API calls (`touch off` disables)
 static const uint64_t kNoScript = 1000000;
 
 static DnsRequest::IPAddressVec servers(unsigned n) {
@@ -44,7 +44,7 @@ static void reset_case() {
     delete dns;
     dns = new Probe(loop, servers(1));
     serial = 0;
-    scripts.clear(); ids.clear(); touch_captures = false;
+    scripts.clear(); ids.clear(); touch_captures = true;
 }
 
 static const char *status_str(DnsRequest::Result::Status s) {
@@ -110,8 +110,9 @@ static unsigned do_lookup(uint64_t sid) {
     // the script is bound when the lookup is issued (lean: `st.scripts.getD sid []` in `lookup`)
     Ctx ctx{me, sid < scripts.size() ? scripts[sid] : std::vector<ActT>(), std::string(40, 'x')};
     auto id = dns->request(DomainName("verif.example.com"), [ctx](const DnsRequest::Result &r) {
-        on_result(ctx.me, ctx.script, r);             // everything needed is copied out before any API call
-        if (touch_captures) {                         // ... unless asked to behave like a callback that keeps using its captures
+        on_result(ctx.me, ctx.script, r);
+        if (touch_captures) {                         // like an ordinary callback it keeps using its captures after its API
+                                                      // calls: a callable destroyed under its feet is an ASan report
             volatile char ch = ctx.tag[ctx.tag.size() - 1]; (void)ch;
         }
     });
